@@ -29,11 +29,13 @@ package async
 //@   requires c != nil && c.wait != nil && !chanclosed(c.wait) && c.delegate != nil
 //@   ensures #done chanclosed(c.wait)
 //@   ensures #own (c.result == dres(c.ctx) && c.err == derr(c.ctx)) || (c.err != nil && chanclosed(ctxdone(c.ctx)) && c.result == old(c.result))
+//@   ensures #serial spawned() == old(spawned())
 //@   modifies c.result, c.err, region($chanclosed), Q.closed, list.List.lmem, list.List.lcnt, list.Element.lrk, list.Element.Value, region($alloc)
 //@ func procCtxT.run
 //@   requires c != nil && c.wait != nil && !chanclosed(c.wait) && c.proc != nil
 //@   ensures #done chanclosed(c.wait)
 //@   ensures #own (c.result == dres(c.ctx) && c.err == derr(c.ctx)) || (c.err != nil && chanclosed(ctxdone(c.ctx)) && c.result == old(c.result))
+//@   ensures #serial spawned() == old(spawned())
 //@   modifies c.result, c.err, region($chanclosed), Q.closed, list.List.lmem, list.List.lcnt, list.Element.lrk, list.Element.Value, region($alloc)
 //
 // r: the caller gets its own context's error, or - once run has closed the wait channel - the stored result
@@ -69,7 +71,7 @@ package async
 // the loop ends and the stop channel is closed
 //@ func ctxRunnerI.run
 //@   trusted interface dispatch to one of the run methods above (or the reflective one); the contract counts the call
-//@   ensures runs == old(runs) + 1 && chanclosed(curStop) == old(chanclosed(curStop))
+//@   ensures runs == old(runs) + 1 && chanclosed(curStop) == old(chanclosed(curStop)) && spawned() == old(spawned())
 //@   modifies runs, region($chanclosed), Q.closed, list.List.lmem, list.List.lcnt, list.Element.lrk, list.Element.Value, region($alloc)
 //@ func RunnerQ.popLoop
 //@   requires rqwf(c) && c.stopChan != nil && !chanclosed(c.stopChan) && curStop == c.stopChan
@@ -78,3 +80,22 @@ package async
 //@   loop 1
 //@     invariant #serial spawned() == old(spawned())
 //@     invariant rqwf(c) && c.stopChan != nil && !chanclosed(c.stopChan) && curStop == c.stopChan
+//
+// ---- the proc channel executor (procchan.go): the request context. The channel of requests itself is a value
+// channel (send statements: outside the modelled subset), so addCallCtx/popLoop of ProcChan are not under contract;
+// what the lane does with one request is: run executes it at most once, in the lane's own goroutine (no `go`: the
+// frame has no region($spawns), so calls of one lane cannot overlap), stores the request's OWN result and closes
+// the wait channel on every path; r hands the caller its own context's error, the stop error, or the stored result.
+//@ func procChanCtxT.run
+//@   requires c != nil && c.wait != nil && !chanclosed(c.wait) && c.proc != nil
+//@   ensures #done chanclosed(c.wait)
+//@   ensures #own (c.result == dres(c.ctx) && c.err == derr(c.ctx)) || (c.err != nil && chanclosed(ctxdone(c.ctx)) && c.result == old(c.result))
+//@   ensures #serial spawned() == old(spawned())
+//@   modifies c.result, c.err, region($chanclosed), Q.closed, list.List.lmem, list.List.lcnt, list.Element.lrk, list.Element.Value, region($alloc)
+//@ func procChanCtxT.r
+//@   requires c != nil && errsOK()
+//@   ensures #routed (chanclosed(ctxdone(c.ctx)) && result0 == nil && result1 != nil) || (chanclosed(stopChan) && result0 == nil && result1 == ErrClosed) || (chanclosed(c.wait) && result0 == c.result && result1 == c.err)
+//@   modifies region($chanclosed)
+//@ func newProcChanCtx
+//@   ensures result != nil && isfresh(result) && result.ctx == ctx && result.proc == proc && result.wait != nil && !chanclosed(result.wait) && result.result == nil && result.err == nil
+//@   modifies region($alloc), region($chanclosed)
